@@ -503,6 +503,8 @@ def run(ctx):
     ctx.replayed = ninj + operandpattern.replay(ctx, ["symeig"], "eiggrad")
     from vlib import objstate
     ctx.replayed += objstate.replay(ctx, ["symeig", "symeig-davidson"], "eiggrad")
+    from vlib import bwdreuse
+    ctx.replayed += bwdreuse.replay(ctx, ["symeig", "symeig-davidson"], "eiggrad", sample=(120 if ctx.tier == "thorough" else 20))
     ctx.notes.update(davidson_cases_skipped_for_inaccurate_forward=skipped[0], injection_cases=ninj, table_cases=ntab, tlc_garbage_choices=len(cases))
     ctx.assumptions += [
         "losses are basis-independent inside every degenerate block: sum_b c_b sum_{i in b} lambda_i + w_b tr(P_b G)",
